@@ -126,8 +126,17 @@ def timer_lifecycle(P, R, cl):
             if s.ev.get('callee') in ('event_free', 'event_del') and s.ev['args'] and on_path(s.ev['args'][0], 'timeout', core.REQ_REC):
                 n += 1
                 R.ob('C10.WMC.2', f is cl and s.ev['callee'] == 'event_free', s, 'a request\'s timer is destroyed only by the table\'s cleanup, so it lives exactly as long as the request (%s in %s)' % (s.ev['callee'], f.name), key='timer-free')
+    # an event that carries a request is one the request owns: a fire-and-forget event (event_base_once) cannot be taken
+    # back when the request is retired, and fires on the freed record
+    for f in P.fns.values():
+        for s in f.calls():
+            if s.ev.get('callee') in ('event_base_once', 'event_new', 'event_assign') and any(isinstance(a, dict) and a.get('t') == uar.REQ_T for a in s.ev['args']):
+                n += 1
+                owned = s.ev['callee'] == 'event_new' and any(t.ev['k'] == 'store' and is_field(t.ev['lhs'], 'timeout', core.REQ_REC) and
+                                                              any(x.get('k') == 'callref' and x.get('ev') == s.ev.get('id') for x in walk(t.ev.get('rhs') or {})) for t in f.stores())
+                R.ob('C10.WMC.2', owned, s, 'an event whose callback gets a request is kept in that request, so that it is freed with it (%s in %s)' % (s.ev['callee'], f.name), key='timer-owned:%s' % s.ev['callee'])
     # the timer cannot outlive the request through another pointer: only stored in the request
-    R.floor('C10.WMC.2', 3)
+    R.floor('C10.WMC.2', 4)
 
 
 def stats_binding(P, R):
